@@ -2,7 +2,9 @@
 EXTENDS CacheView, Json
 \* object 1: a /Pages dictionary (loads as PagesNode "P" and as Dictionary "D");
 \* object 2: a plain dictionary (D ok, P err); object 3: an integer (both err); stream 4: an image [ASCIIHex, Flate]
+\* object 8: a /Page whose required /Parent refers to a free object (P fails because of a dangling reference it follows, D ok)
 MC_Loads == (1 :> ("P" :> "ok" @@ "D" :> "ok")) @@ (2 :> ("P" :> "err" @@ "D" :> "ok")) @@ (3 :> ("P" :> "err" @@ "D" :> "err"))
+            @@ (8 :> ("P" :> "err" @@ "D" :> "ok"))
 AsBuilt == {"stream_cache_key_ignores_filters"}
 Ideal(k) == Uncached(path[k].call, path[k].arg, path[k].typ)
 CaseJson == [ocOn |-> ocOn, scOn |-> scOn, dev |-> Dev,
